@@ -66,10 +66,10 @@ class Models:
             if k == K.Dyn:
                 ex.run.assumed.add('A-dyn')
                 f = P.ufn('dyn_len', [K.Dyn.sort()], z3.IntSort())
-                ex.run.assume(f(v.t) >= 0)
+                ex.run.axiom(f(v.t) >= 0)
                 J, JL, JD = K.dyn_sorts()
-                ex.run.assume(z3.Implies(J.is_JDict(v.t), (f(v.t) == 0) == JD.is_JDNil(J.jdict(v.t))))
-                ex.run.assume(z3.Implies(z3.And(J.is_JDict(v.t), z3.Not(JD.is_JDNil(J.jdict(v.t))), JD.is_JDNil(JD.jdtail(J.jdict(v.t)))), f(v.t) == 1))
+                ex.run.axiom(z3.Implies(J.is_JDict(v.t), (f(v.t) == 0) == JD.is_JDNil(J.jdict(v.t))))
+                ex.run.axiom(z3.Implies(z3.And(J.is_JDict(v.t), z3.Not(JD.is_JDNil(J.jdict(v.t))), JD.is_JDNil(JD.jdtail(J.jdict(v.t)))), f(v.t) == 1))
                 return Sym(K.Int, f(v.t))
         if isinstance(v, Ref):
             c = ex.run.cell(v)
@@ -886,6 +886,74 @@ class Models:
     def x_pyvc_prims_str_strip(self):
         return Builtin('prims.str_strip', lambda ex_, a, k: self.s_strip(a[0]))
 
+    def _seq_arg(self, ex_, v):
+        from . import loops
+        s_ = loops.as_seq(ex_, v)
+        if isinstance(s_, list):
+            k = K.Seq(P.kind_of(ex_, s_[0])) if s_ else None
+            if k is None:
+                raise OutOfSubset('slice prim on an empty concrete list')
+            return Sym(k, P.seq_of(ex_, [P.lift(ex_, x, k.elem) for x in s_], k))
+        return s_
+
+    def x_pyvc_prims_seq_take(self):
+        def f(ex_, a, k):
+            s_ = self._seq_arg(ex_, a[0])
+            return Sym(s_.kind, z3.SubSeq(s_.t, 0, P.int_t(ex_, a[1])))
+        return Builtin('prims.seq_take', f)
+
+    def x_pyvc_prims_seq_drop(self):
+        def f(ex_, a, k):
+            s_ = self._seq_arg(ex_, a[0])
+            n = P.int_t(ex_, a[1])
+            return Sym(s_.kind, z3.SubSeq(s_.t, n, z3.Length(s_.t) - n))
+        return Builtin('prims.seq_drop', f)
+
+    def x_pyvc_prims_seq_slice(self):
+        def f(ex_, a, k):
+            s_ = self._seq_arg(ex_, a[0])
+            lo, hi = P.int_t(ex_, a[1]), P.int_t(ex_, a[2])
+            return Sym(s_.kind, z3.SubSeq(s_.t, lo, hi - lo))
+        return Builtin('prims.seq_slice', f)
+
+    def x_pyvc_prims_all_of(self):
+        def f(ex_, a, k):
+            acc = True
+            for x in a:
+                acc = P.and_(ex_, acc, x if isinstance(x, (bool, Sym)) else ex_.truth(x))
+            return acc
+        return Builtin('prims.all_of', f)
+
+    def x_pyvc_prims_any_of(self):
+        def f(ex_, a, k):
+            acc = False
+            for x in a:
+                acc = P.or_(ex_, acc, x if isinstance(x, (bool, Sym)) else ex_.truth(x))
+            return acc
+        return Builtin('prims.any_of', f)
+
+    def x_pyvc_prims_lemma(self):
+        def lemma(ex_, a, k):
+            run = ex_.run
+            fact = a[0]
+            if isinstance(fact, bool):
+                if not fact:
+                    run.oblige('lemma', 'lemma', z3.BoolVal(False))
+                return True
+            ft = P.lift(ex_, fact, K.Bool)
+            seen = run.ghost.setdefault('_lemma_ids', set())
+            lkey = (ft.get_id(), tuple(h.get_id() for h in run.pc))
+            if lkey not in seen:
+                seen.add(lkey)
+                n = len(run.obligations_sink)
+                ob = run.oblige(f'{getattr(ex_, "lemma_prefix", "clause")}.lemma{n}', 'lemma', ft)
+                run.obligations_sink.append(ob)
+            # once proved under the current hypotheses, the fact may be used wherever those hypotheses hold
+            hyp = z3.And(*run.pc) if run.pc else z3.BoolVal(True)
+            run.axiom(z3.Implies(hyp, ft))
+            return True
+        return Builtin('prims.lemma', lemma)
+
     def x_pyvc_prims_implies(self):
         def imp(ex_, a, k):
             x, y = a
@@ -899,7 +967,7 @@ def sha256_hex(ex, text):
     ex.run.assumed.add('A-sha')
     t = P.str_t(ex, text)
     f = P.ufn('sha256_hex', [z3.StringSort()], z3.StringSort())
-    ex.run.assume(z3.Length(f(t)) == 64)
+    ex.run.axiom(z3.Length(f(t)) == 64)
     return Sym(K.Str, f(t))
 
 
@@ -1122,14 +1190,14 @@ def split(ex, s_t, sep):
     k = K.Seq(K.Str)
     f = P.ufn(f'split_{_sepname(sep)}', [z3.StringSort()], k.sort())
     parts = f(s_t)
-    ex.run.assume(z3.Length(parts) >= 1)
+    ex.run.axiom(z3.Length(parts) >= 1)
     j = loops.join_term(ex, z3.StringVal(sep), parts)
-    ex.run.assume(j == s_t)
+    ex.run.axiom(j == s_t)
     i = z3.Int(f'split_i_{_sepname(sep)}')
-    ex.run.assume(P.forall([i], z3.Implies(z3.And(i >= 0, i < z3.Length(parts)),
+    ex.run.axiom(P.forall([i], z3.Implies(z3.And(i >= 0, i < z3.Length(parts)),
                                             z3.Not(z3.Contains(parts[i], z3.StringVal(sep)))), patterns=[parts[i]]))
     # a string without the separator is a single part
-    ex.run.assume(z3.Implies(z3.Not(z3.Contains(s_t, z3.StringVal(sep))), parts == z3.Unit(s_t)))
+    ex.run.axiom(z3.Implies(z3.Not(z3.Contains(s_t, z3.StringVal(sep))), parts == z3.Unit(s_t)))
     return Sym(k, parts)
 
 
